@@ -301,6 +301,7 @@ func (f *Frame) enterLoop(l *Loop, pre *State, prePhi map[*ssa.Phi]Val) *State {
 	sort.Strings(names)
 	for _, k := range names {
 		vc.havoc(hdr, k)
+		hdr.markDirty(k)
 	}
 	if l.modset == nil || l.modset.alloc {
 		a := vc.fresh("A", SInt)
@@ -547,6 +548,41 @@ func (f *Frame) makeCandidates(l *Loop) {
 			}
 			return Forall([]Term{r}, Imp(And(Lt(r, preA), Not(Or(ex...))), Eq(Select(cur, r), Select(preC, r))), []Term{Select(cur, r)})
 		})
+	}
+	// maps that existed before the loop, other than those updated inside it, are unchanged
+	if l.header != nil {
+		updated := map[string][]ssa.Value{} // map type key -> map values written in the loop
+		for b := range l.blocks {
+			for _, in := range b.Instrs {
+				if mu, ok := in.(*ssa.MapUpdate); ok {
+					if def, isIn := mu.Map.(ssa.Instruction); !isIn || !l.blocks[def.Block()] {
+						tk := typeKey(mu.Map.Type())
+						updated[tk] = append(updated[tk], mu.Map)
+					}
+				}
+			}
+		}
+		for _, k := range names {
+			k := k
+			tk := mapCompOf(k)
+			if tk == "" || len(updated[tk]) == 0 {
+				continue
+			}
+			ws := updated[tk]
+			preC := vc.get(pre, k)
+			preA := pre.alloc
+			mk1("frameLm:"+k, func(st *State, phi map[*ssa.Phi]Val) Term {
+				r := Term{"r!q", SInt}
+				cur := vc.get(st, k)
+				var ex []Term
+				for _, w := range ws {
+					if v, ok := f.vals[w]; ok {
+						ex = append(ex, Eq(r, v.one()))
+					}
+				}
+				return Forall([]Term{r}, Imp(And(Lt(r, preA), Not(Or(ex...))), Eq(Select(cur, r), Select(preC, r))), []Term{Select(cur, r)})
+			})
+		}
 	}
 	for _, key := range gorder {
 		members := groups[key]
